@@ -8,7 +8,7 @@ from . import common, gen
 NEVER_CIDS = {  # digests of strings never stored by any history
     a: hashlib.new(h, b"hsverif-never-stored").hexdigest() for a, h in common.STORE_ALGOS.items()
 }
-KINDS = ["str", "path", "file", "bytesio", "bufreader", "gzip", "rwfile", "relpath", "shortreads"]
+KINDS = ["str", "path", "file", "bytesio", "bufreader", "gzip", "rwfile", "relpath", "shortreads", "linkpath"]
 
 
 def store_op(pids, n_contents, allow_none=True, validation=True, kinds=("str",), algos=None,
